@@ -146,14 +146,15 @@ class SymDateTimeClass(SymDateTime, metaclass=_SymDTMeta):
 
 
 # ----------------------------------------------------------------------------------------- JSON values
-class JText:
-    """What the json stub's dumps() returns: opaque text carrying the Python value, so that symbolic
-    leaves survive a store round trip.  loads(dumps(x)) == x for JSON-representable x."""
+class JText(str):
+    """What the json stub's dumps() returns: opaque text (a str, like real JSON text) carrying the
+    Python value, so that symbolic leaves survive a store round trip.  loads(dumps(x)) == x for
+    JSON-representable x.  The character content is a placeholder and is never parsed."""
 
-    __slots__ = ("obj",)
-
-    def __init__(self, obj: Any) -> None:
+    def __new__(cls, obj: Any) -> "JText":
+        self = super().__new__(cls, "<json>")
         self.obj = obj
+        return self
 
     def __repr__(self) -> str:
         return "JText(%r)" % (self.obj,)
@@ -161,11 +162,14 @@ class JText:
     def __eq__(self, o: Any) -> Any:
         return isinstance(o, JText) and self.obj == o.obj
 
+    def __ne__(self, o: Any) -> Any:
+        return not self.__eq__(o)
+
     def __hash__(self) -> int:
         return 11
 
-    def __getitem__(self, i: Any) -> str:  # payload[:200] in an error path
-        return repr(self.obj)[i]
+    def __bool__(self) -> bool:
+        return True
 
 
 def _jcopy(x: Any, default: Any = None) -> Any:
